@@ -261,6 +261,8 @@ def run(ctx):
     c14.check_get_av(ctx)        # 'k is the extinction law normalised to -0.4 at V' (ALG-9, EFF-4)
     from . import c02
     c02.check_readers(ctx)       # 'log10 model flux': what the fit is given as model fluxes is the convolved flux in mJy, filter by filter (ALG-10)
+    c02.check_readers_two_filters(ctx)
+    c02.check_readers_distance_independent(ctx)          # ... and for the packages the 2-parameter fit is made for: the flux as stored, no distance grid
 
 
 # ---------------------------------------------------------------- self-validation corpus (thorough tier)
